@@ -144,6 +144,9 @@ def Supported (d : MsgDef) (v : Nat) : Bool :=
   && structOk v false d.fields
   && d.commonStructs.all (fun cs => structOk v true cs.fields && !isRequestHeaderName cs.name)
   && d.everywhere (fun f => !f.versions.matches v || (fieldOk d v f && membersOk d v f))
+  -- field names have at least two characters (the real `to_snake_case` raises IndexError on a
+  -- one-character name — observed by the C16 run; the model's `toSnakeCase` is total)
+  && d.everywhere (fun f => decide (2 ≤ f.name.length))
 
 end Kio.Gen
 
